@@ -276,6 +276,12 @@ public:
   static ptr_op_t new_node(kind_t _kind, ptr_op_t _left = NULL,
                            ptr_op_t _right = NULL);
 
+  // compile() and calc() call themselves once per level of the expression
+  // tree and once per call of a user-defined function or variable; no parsed
+  // expression is deeper than its number of tokens, so anything deeper is a
+  // definition that refers to itself
+  static const int MAX_DEPTH = 4096;
+
   ptr_op_t compile(scope_t& scope, const int depth = 0,
                    scope_t * param_scope = NULL);
   value_t  calc(scope_t& scope, ptr_op_t * locus = NULL,
